@@ -56,16 +56,25 @@ def templates(rnd):
                                                  "rand": True, "randsz": False, "size": 3}],
                 [["solve_order", F("a"), F("l")], ["foreach", ["l"], [["expr", ["bin", "Le", ["it"], F("a")]]]]],
                 {"a": [0, 1, 2, 3]}))
+    # T9: two alternative blocks with opposite orderings, the second one switched off: only the enabled block's declaration counts
+    # (a disabled block takes no part in the call - also not with its ordering)
+    out.append(("alt_orders", [("a", 2, False), ("b", 6, False)],
+                [["expr", ["bin", "Le", F("b"), F("a")]]],
+                {"a": [0, 1, 2, 3]},
+                {"blocks": [{"name": "o1", "stmts": [["solve_order", F("a"), F("b")]]}, {"name": "o2", "stmts": [["solve_order", F("b"), F("a")]]}],
+                 "off": ["o2"]}))
     return out
 
 
 def mk_scenario(t, ncalls):
-    name, fields, stmts, feas = t
+    name, fields, stmts, feas = t[:4]
+    extra = t[4] if len(t) > 4 else {}
     fs = [f if isinstance(f, dict) else {"name": f[0], "kind": "scalar", "w": f[1], "sg": f[2], "rand": True} for f in fields]
-    cls = {"name": "K0", "fields": fs, "blocks": [{"name": "c0", "stmts": stmts}], "pre_randomize": [], "post_randomize": []}
+    cls = {"name": "K0", "fields": fs, "blocks": [{"name": "c0", "stmts": stmts}] + extra.get("blocks", []), "pre_randomize": [], "post_randomize": []}
     ops = [{"op": "new", "var": "o", "cls": "K0"}, {"op": "seed", "var": "o", "seed": 1}]
+    ops += [{"op": "cmode", "var": "o", "path": [], "block": b, "on": False} for b in extra.get("off", [])]
     ops += [{"op": "randomize", "var": "o", "inline": None} for _ in range(ncalls)]
-    return {"enums": {}, "classes": [cls], "root_cls": "K0", "ops": ops, "template": name, "feasible": feas}
+    return {"enums": {}, "classes": [cls], "root_cls": "K0", "ops": ops, "template": name, "feasible": feas, "off": extra.get("off", [])}
 
 
 def first_fields(stmts):
@@ -116,7 +125,7 @@ def run(ctx):
             core.add_violation(ctx, "library raised with solve_order: %s" % str(o)[:300], {"scenario": sc["classes"], "observed": str(o)[:1500]})
             continue
         names = [f["name"] for f in sc["classes"][0]["fields"]]
-        before, after = first_fields(sc["classes"][0]["blocks"][0]["stmts"])
+        before, after = first_fields([st for b in sc["classes"][0]["blocks"] if b["name"] not in sc.get("off", []) for st in b["stmts"]])
         idb = {names.index(n) for n in before - after}
         ida = {names.index(n) for n in after}
         calls = [(op, r) for op, r in zip(sc["ops"], o["ops"]) if op["op"] == "randomize"]
@@ -155,7 +164,7 @@ def run(ctx):
                                         "(expected %.1f each, 6.1 sigma = %.1f)" % (n, sorted(c.items()), N * p, 6.1 * sigma),
                                    {"scenario": sc["classes"], "observed": {"counts": sorted(c.items()), "calls": N}})
     # constraints still hold / satisfiability unchanged: the C01/C02 oracle on the first calls of every template
-    short = [dict(s, ops=s["ops"][:8]) for s in scs[:len(templates(random.Random(0)))]
+    short = [dict(s, ops=s["ops"][:9]) for s in scs[:len(templates(random.Random(0)))]
              if all(f["kind"] == "scalar" for f in s["classes"][0]["fields"])]      # (lists: C04's oracle)
     results, crashed = solve_common.evaluate(ctx, short, "c20")
     for si, oi, code, res in results:
@@ -170,7 +179,7 @@ def run(ctx):
     ctx.coverage.update({
         "evaluations": evals,
         "distinct_nontrivial": len({repr(s["classes"]) for s in scs}),
-        "rule": "eight templates (implication, b <= a, narrowed range, signed first variable, chain a->b->c, list of first variables, "
+        "rule": "nine templates (two alternative blocks with opposite orderings, one switched off; implication, b <= a, narrowed range, signed first variable, chain a->b->c, list of first variables, "
                 "the chain with the last variable mentioned first - b judged given a = 0 -, a vsc list as the later argument) "
                 "with seeded parameters, each randomised %d times from a fixed RandState; per call: normal return, swizzle order "
                 "in the solver transcript (no slice of a first-solved field after a slice of a later one); per template: histogram "
